@@ -856,7 +856,7 @@ func sorted(s *scope, args []pyObject) pyObject {
 	if reverse {
 		order = GreaterThan
 	}
-	l = l[:]
+	l = slices.Clone(l)
 	if key == nil {
 		sort.Slice(l, func(i, j int) bool {
 			return s.operator(order, l[i], l[j]).IsTruthy()
@@ -883,7 +883,7 @@ func sorted(s *scope, args []pyObject) pyObject {
 func reversed(s *scope, args []pyObject) pyObject {
 	l, ok := args[0].(pyList)
 	s.Assert(ok, "irreversible type %s", args[0].Type())
-	l = l[:]
+	l = slices.Clone(l)
 	slices.Reverse(l)
 	return l
 }
